@@ -50,6 +50,12 @@ def _describe(e):
     if e.get("peer") not in ("", e["state"]):
         return "%s: after the valid path %s the %s agent is in %s but its real peer agent is in %s (seen while probing %s(%s))" % (
             e["proto"], e["path"], e["role"], e["state"], e["peer"], e["via"], steps)
+    if e.get("badkind") == "followup":
+        return "%s %s: after refusing a %s with an unacceptable payload the agent is in %s; the legal follow-up %s(%s) returned %s%s and left it in %s (a refused message must not change the state)" % (
+            e["proto"], e["role"], e["steps"][0]["msg"], e["state"], e["via"], steps, e["res"], ("(%s)" % e["err"]) if e["err"] else "", e["after"])
+    if e.get("bad", 0) > 0:
+        return "%s %s in state %s: %s(%s) with a %s payload in step %d returned %s%s and left the agent in %s: a message refused with an error must not change the state" % (
+            e["proto"], e["role"], e["state"], e["via"], steps, e["badkind"], e["bad"], e["res"], ("(%s)" % e["err"]) if e["err"] else "", e["after"])
     return "%s %s in state %s: %s(%s) returned %s%s and left the agent in %s, which the state machine does not allow" % (
         e["proto"], e["role"], e["state"], e["via"], steps, e["res"], ("(%s)" % e["err"]) if e["err"] else "", e["after"])
 
@@ -83,6 +89,8 @@ def run(ctx):
                "AwaitAcquire from Acquired; pallas has no tx-monitor server agent")
     ctx.assume("send_message/recv_message do not track the state in this code base: after an accepted low-level call "
                "either the old or the next state is accepted; high-level methods must end in the table's next state")
+    ctx.assume("payloads: whether an agent inspects a payload is not fixed by the tables; if it refuses a message of an "
+               "allowed kind for a payload reason (cookie mismatch, undecodable body) the state must stay as it was")
     ctx.assume("states behind a message the agent has no state-tracking method for (keep-alive / tx-monitor client Done) "
                "are not probed; local-tx-submission agents cannot even attempt the other role's messages (private send)")
 
